@@ -24,19 +24,19 @@ import (
 // actions on the real application (shared by the model walk and the random drivers)
 
 type createArgs struct {
-	From   string   `json:"from"`
-	Dep    []int64  `json:"dep"`
-	Denom  string   `json:"denom"`
-	Tot    int64    `json:"tot"`
-	Dur    int64    `json:"dur"`   // seconds
-	Start  int64    `json:"start"` // seconds since genesis
-	Pool   int64    `json:"pool"`
-	Master bool     `json:"master"`
-	Childs []int64  `json:"childs"`
-	Funds  []int64  `json:"funds"` // creator's balance of the deposit denom before the message
-	GType  int64    `json:"gtype"`
-	Ok     bool     `json:"ok"` // outcome on the real code
-	Err    string   `json:"err"`
+	From   string  `json:"from"`
+	Dep    []int64 `json:"dep"`
+	Denom  string  `json:"denom"`
+	Tot    int64   `json:"tot"`
+	Dur    int64   `json:"dur"`   // seconds
+	Start  int64   `json:"start"` // seconds since genesis
+	Pool   int64   `json:"pool"`
+	Master bool    `json:"master"`
+	Childs []int64 `json:"childs"`
+	Funds  []int64 `json:"funds"` // creator's balance of the deposit denom before the message
+	GType  int64   `json:"gtype"`
+	Ok     bool    `json:"ok"` // outcome on the real code
+	Err    string  `json:"err"`
 	depBig *big.Int
 }
 
@@ -95,6 +95,9 @@ type blockRes struct {
 	Panic    bool   `json:"panic"`
 	Err      string `json:"err"`
 	LendPaid bool   `json:"lendPaid"` // the books of a lend reward program moved in this block (observation, used to key a known finding)
+	// before the block a swap-fee gauge with a positive deposit sat on a pair with more than one pool while an oracle price
+	// of that pair was missing (observation of the pre-state, used to key a known finding)
+	MultiNoPrice bool `json:"multiNoPrice"`
 }
 
 // ---------------------------------------------------------------------------------------------------------
@@ -184,7 +187,8 @@ func walkFixture() (*sim.Env, *fixture) {
 		Pools:   []poolCfg{{Base: 0, Quote: 1, Rx: t(1000), Ry: t(1000), DonQ: t(9000), DonB: t(9000)}, {Base: 2, Quote: 3, Rx: t(1000), Ry: t(1000), DonQ: t(9000), DonB: t(9000)}},
 		Farmers: []string{"f1", "f2", "f3"},
 		MinPs:   t(1), Give: t(100),
-		Rewards: []string{"urwda", "urwdb", "urwdc"}, RewAmt: t(1000000),
+		Rewards: []string{"urwda", "urwdb", "urwdc", "ufeea", "ufeeb"}, RewAmt: t(1000000),
+		Distr: "ufeea",
 	}
 	return newFixture(cfg)
 }
@@ -196,6 +200,14 @@ type edge struct {
 	Post json.RawMessage `json:"post"`
 	pre  string
 	post string
+}
+
+// the model's fee denoms 101 / 102
+func feeDenom(d int64) string {
+	if d == 102 {
+		return "ufeeb"
+	}
+	return "ufeea"
 }
 
 func canon(raw json.RawMessage) string {
@@ -291,9 +303,9 @@ func (fx *fixture) applyModelEdge(r *runner, e *sim.Env, parent int, ed *edge) i
 	switch ed.A {
 	case "Create":
 		var a struct {
-			Dep, Tot, Pool, Delay int64
-			Master                bool
-			Childs                []int64
+			Dep, Tot, Pool, Delay, Den int64
+			Master                     bool
+			Childs                     []int64
 		}
 		must(json.Unmarshal(ed.Args, &a))
 		// the k-th gauge created on a path uses the k-th reward denom (payouts of different gauges stay separable)
@@ -303,7 +315,11 @@ func (fx *fixture) applyModelEdge(r *runner, e *sim.Env, parent int, ed *edge) i
 				ngauges++
 			}
 		}
-		ca := &createArgs{From: "gc", depBig: big.NewInt(a.Dep), Denom: fx.rewards[ngauges], Tot: a.Tot, Dur: int64(2 * unit / time.Second),
+		denom := fx.rewards[ngauges]
+		if a.Den != 0 { // a gauge paid in one of the swap-fee distribution denoms
+			denom = feeDenom(a.Den)
+		}
+		ca := &createArgs{From: "gc", depBig: big.NewInt(a.Dep), Denom: denom, Tot: a.Tot, Dur: int64(2 * unit / time.Second),
 			Start: rel(e.Ctx.BlockTime()) + a.Delay*int64(unit/time.Second), Pool: a.Pool, Master: a.Master, Childs: a.Childs, GType: 1}
 		fx.createGauge(e, ca)
 		return r.node(parent, "CreateGauge", ca, nil, fx.project(e))
@@ -327,6 +343,17 @@ func (fx *fixture) applyModelEdge(r *runner, e *sim.Env, parent int, ed *edge) i
 		must(json.Unmarshal(ed.Args, &a))
 		fx.priceMode(e, int(a.P), a.Mode)
 		return r.node(parent, "Price", map[string]interface{}{"p": a.P, "mode": a.Mode}, nil, fx.project(e))
+	case "Fees":
+		var a struct{ P, Amt, D int64 }
+		must(json.Unmarshal(ed.Args, &a))
+		c := coin(feeDenom(a.D), big.NewInt(a.Amt))
+		must(e.App.BankKeeper.SendCoins(e.Ctx, sim.Addr("gc"), fx.pairs[a.P-1].GetSwapFeeCollectorAddress(), sdk.NewCoins(c)))
+		return r.node(parent, "SwapFee", map[string]interface{}{"p": a.P, "amt": sim.Limbs(big.NewInt(a.Amt)), "denom": c.Denom}, nil, fx.project(e))
+	case "SetDenom":
+		var a struct{ D int64 }
+		must(json.Unmarshal(ed.Args, &a))
+		fx.setGov(e, feeDenom(a.D), -1)
+		return r.node(parent, "Gov", map[string]interface{}{"distr": feeDenom(a.D)}, nil, fx.project(e))
 	case "Advance":
 		var a struct{ K int64 }
 		must(json.Unmarshal(ed.Args, &a))
@@ -353,7 +380,17 @@ func (fx *fixture) block(r *runner, e *sim.Env, parent int, dt time.Duration) in
 			}
 		}
 	}
-	return r.node(id, "BeginBlock", map[string]interface{}{"dt": int64(dt / time.Second)}, blockRes{Panic: br.Panic, Err: br.Err, LendPaid: lendPaid}, post)
+	multiNoPrice := false
+	for _, g := range pre.Gauges {
+		if g.Kind == "swap" && len(g.Dep) > 0 && g.Pool >= 1 && int(g.Pool) <= len(pre.Pools) {
+			pl := pre.Pools[g.Pool-1]
+			if pl.Multi && !(pl.QOn && pl.BOn) {
+				multiNoPrice = true
+			}
+		}
+	}
+	return r.node(id, "BeginBlock", map[string]interface{}{"dt": int64(dt / time.Second)},
+		blockRes{Panic: br.Panic, Err: br.Err, LendPaid: lendPaid, MultiNoPrice: multiNoPrice}, post)
 }
 
 func must(err error) {
